@@ -177,7 +177,12 @@ func (ci *ChunkInfo) updateChunkInfo(rootCid, overlay boson.Address, bv []byte) 
 		if v == 0 {
 			return
 		}
-		bit, _ := bitvector.NewFromBytes(bv, v)
+		bit, err := bitvector.NewFromBytes(bv, v)
+		if err != nil {
+			// the peer sent fewer presence bytes than the file has chunks
+			ci.logger.Errorf("chunk discover: invalid bit vector from %s: %v", overlay, err)
+			return
+		}
 		vb = &discoverBitVector{
 			bit:  bit,
 			time: time.Now().Unix(),
